@@ -445,7 +445,19 @@ def _conditions():
         'NonEmpty': NonEmpty, 'Empty': Empty, 'Finite': Finite,
         'range0_10': _COND_CACHE.setdefault('range0_10', val_range(min=0, max=10)),
         'len1_3': _COND_CACHE.setdefault('len1_3', len_range(min=1, max=3)),
+        # a user condition whose predicate *raises* for some values ('' -> IndexError): the error tree then carries a
+        # captured cause, traceback chain included
+        'first_upper': _COND_CACHE.setdefault('first_upper', _first_upper_condition()),
     }
+
+
+def _first_upper(s):
+    return s[0].isupper()
+
+
+def _first_upper_condition():
+    from pane.annotations import Condition
+    return Condition(_first_upper, 'capitalized')
 
 
 _COND_CACHE: t.Dict[str, t.Any] = {}
@@ -727,6 +739,8 @@ def _near_miss(ast, world, rng, rec):
     if k == 'ann':
         cond = ast[2]
         inner = ast[1]
+        if cond == 'first_upper':
+            return rng.choice(['', '', 'lower', '1st'])
         if cond in NUM_CONDS:
             f = float if inner == ['s', 'float'] else int
             return {'Positive': f(rng.choice([0, -1, -12])), 'NonNegative': f(rng.choice([-1, -5])),
@@ -827,6 +841,8 @@ def sample_value(ast, world: World, rng, valid_p=0.8, alphabet='mixed', depth=0,
     if k == 'lit':
         return dec(rng.choice(ast[1:]))
     if k == 'ann':
+        if ast[2] == 'first_upper':
+            return rng.choice(['Abc', 'Zed', 'Éclair', 'X y', 'Q', 'Ünder', 'A\u0301', 'Ω']) if rng.random() < 0.85 else rec(ast[1])
         return rec(ast[1])
     if k == 'vol':
         return rec(ast[1]) if rng.random() < 0.5 else [rec(ast[1]) for _ in range(n_items())]
@@ -1002,6 +1018,8 @@ def _gen_type(rng, world: World, kinds, scalars, depth=0, max_depth=3, top=True,
     if k == 'ann':
         if rng.random() < 0.5:
             return ['ann', ['s', rng.choice(['int', 'float'])], rng.choice(NUM_CONDS)]
+        if 'str' in scalars and rng.random() < 0.25:
+            return ['ann', ['s', 'str'], 'first_upper']
         return ['ann', [rng.choice(['list', 'tlist']), sub()], rng.choice(LEN_CONDS)]
     if k == 'tl':
         return ['tl'] + [sub(True) for _ in range(rng.choice([1, 2, 2, 3]))]
